@@ -686,7 +686,9 @@ func solveAdaptive(file string, smt string, tmo int, mode string) SolveResult {
 			if sc.name != "cvc5" {
 				continue
 			}
-			st, _, el := runOne(sc.name, sc.argv(file, tmo), tmo)
+			// these goals take seconds, not milliseconds, and slow down a lot on a loaded machine: generous limit
+			ft := tmo * 4
+			st, _, el := runOne(sc.name, sc.argv(file, ft), ft)
 			if st == "unsat" || st == "sat" {
 				return SolveResult{Status: st, Solver: sc.name, TimeS: el, Tried: []string{fmt.Sprintf("%s:%s:%.2fs", sc.name, st, el)}}
 			}
